@@ -79,6 +79,40 @@ MUTANTS = {
         ('and-or-swapped', IN, 'ast::AndOr::And(p) => (true, p),\n                ast::AndOr::Or(p) => (false, p),', 'ast::AndOr::And(p) => (false, p),\n                ast::AndOr::Or(p) => (true, p),'),
         ('is-last-off-by-one', IN, 'let is_last = index == self.additional.len() - 1;', 'let is_last = index + 1 == self.additional.len() - 1;'),
     ],
+    'U4f': [
+        ('fallthrough-tests-pattern', IN, '''                ast::CaseItemPostAction::UnconditionallyExecuteNextCaseItem => {
+                    force_execute_next_case = true;
+                }''', '''                ast::CaseItemPostAction::UnconditionallyExecuteNextCaseItem => {
+                    force_execute_next_case = false;
+                }'''),
+        ('continue-evaluating-exits', IN, '''                ast::CaseItemPostAction::ContinueEvaluatingCases => (),''', '''                ast::CaseItemPostAction::ContinueEvaluatingCases => break,'''),
+        ('exitcase-continues', IN, '''                ast::CaseItemPostAction::ExitCase => break,''', '''                ast::CaseItemPostAction::ExitCase => (),'''),
+        ('case-nonnormal-flow-ignored', IN, '''            // Check for early return (return/exit) or loop control flow (break/continue)
+            if !result.is_normal_flow() {
+                break;
+            }
+''', ''),
+        ('first-match-not-stopping', IN, '''                        matches = true;
+                        break;''', '''                        matches = true;'''),
+        ('empty-clause-keeps-status', IN, '''            } else {
+                ExecutionResult::success()
+            };
+
+            // Check for early return''', '''            } else {
+                result
+            };
+
+            // Check for early return'''),
+        ('case-final-status-dropped', IN, '''                ast::CaseItemPostAction::ContinueEvaluatingCases => (),
+            }
+        }
+
+        shell.set_last_exit_status(result.exit_code.into());
+''', '''                ast::CaseItemPostAction::ContinueEvaluatingCases => (),
+            }
+        }
+'''),
+    ],
     'U4g': [
         ('list-continues-after-nonnormal', IN, '''                shell.set_last_exit_status(result.exit_code.into());
             }
